@@ -225,6 +225,9 @@ type upstream struct {
 	conns map[net.Conn]bool
 	h2srv *http2.Server
 	stop  chan struct{}
+	// closeNext > 0: the next accepted connections are closed at once, before a byte is read (an upstream that dies between
+	// accept and service, or a load balancer that resets fresh connections)
+	closeNext int32
 }
 
 func startUpstream(log *evLog, name, proto string) (*upstream, error) {
@@ -245,6 +248,11 @@ func (u *upstream) acceptLoop() {
 		c, err := u.ln.Accept()
 		if err != nil {
 			return
+		}
+		if atomic.LoadInt32(&u.closeNext) > 0 {
+			atomic.AddInt32(&u.closeNext, -1)
+			c.Close()
+			continue
 		}
 		id := atomic.AddInt64(&u.connN, 1)
 		u.log.mu.Lock()
